@@ -5,6 +5,7 @@
 package backtest
 
 import (
+	"cmp"
 	// Go embed report template.
 	_ "embed"
 	"fmt"
@@ -184,7 +185,7 @@ func (h *HTMLReport) AssetEnd(name string) error {
 
 	// Sort the backtest results by the outcomes.
 	slices.SortFunc(results, func(a, b *htmlReportResult) int {
-		return int(b.Outcome - a.Outcome)
+		return cmp.Compare(b.Outcome, a.Outcome)
 	})
 
 	bestResult := results[0]
@@ -212,7 +213,7 @@ func (h *HTMLReport) End() error {
 
 	// Sort the best results by the outcomes.
 	slices.SortFunc(h.bestResults, func(a, b *htmlReportResult) int {
-		return int(b.Outcome - a.Outcome)
+		return cmp.Compare(b.Outcome, a.Outcome)
 	})
 
 	return h.writeReport()
